@@ -175,11 +175,14 @@ def get_randao_mix (cfg : Config) (s : State) (epoch : Nat) : SM Bytes := do
   if cfg.EPOCHS_PER_HISTORICAL_VECTOR = 0 then invalid "EPOCHS_PER_HISTORICAL_VECTOR = 0"
   idx s.randao_mixes (epoch % cfg.EPOCHS_PER_HISTORICAL_VECTOR) "randao_mixes"
 
-def get_active_validator_indices (s : State) (epoch : Nat) : List Nat :=
-  (List.range s.validators.length).filter fun i =>
-    match s.validators[i]? with
+/-- `get_active_validator_indices` on a bare registry -/
+def active_indices_of (vals : List Validator) (epoch : Nat) : List Nat :=
+  (List.range vals.length).filter fun i =>
+    match vals[i]? with
     | some v => is_active_validator v epoch
     | none => false
+
+def get_active_validator_indices (s : State) (epoch : Nat) : List Nat := active_indices_of s.validators epoch
 
 def get_validator_churn_limit (cfg : Config) (s : State) : SM Nat := do
   if cfg.CHURN_LIMIT_QUOTIENT = 0 then invalid "CHURN_LIMIT_QUOTIENT = 0"
